@@ -767,6 +767,8 @@ def main(run):
         os.chdir(tmp)
         _stage(run, "left-handed input cells", W.lefthanded_flows, run, tmp, run.rng, thorough)
         os.chdir(tmp)
+        _stage(run, "LAMMPS route", W.lammps_flows, run, tmp, run.rng, thorough)
+        os.chdir(tmp)
         _stage(run, "mixed conf file + options through main", W.precedence_flows, run, tmp, flows[0])
         os.chdir(tmp)
         _stage(run, "run-mode decision", W.decision_checks, run, tmp, flows[0], run.rng, thorough)
